@@ -233,6 +233,8 @@ contract(SR + '._loads', types={'self': "Inst('%s')" % AR_, 'xmldata': 'Union(St
          modifies=['self.xmlstr', 'self.origxml', 'self.response', 'self.in_response_to', 'self.name_id',
                    'self.not_on_or_after'],
          clauses_from={'C02': ['C02-required-response-signature'], 'C01': ['C01-response-signature-verified'],
+                       # C20: a verification site -- a response signature that is present reaches the tool, and only the tool's OK lets it pass
+                       'C20': ['C01-response-signature-verified'],
                        'C13': ['C13-valid-or-cleared']})
 
 _ALLSC = ('forall(lambda a: forall(lambda j: as_type(%s.assertion, "List(Inst(\'saml2_tophat.saml:Assertion\'))")[a].subject.subject_confirmation[j]'
@@ -391,6 +393,7 @@ contract(AR_ + '._assertion', types={'assertion': ASRT, 'verified': 'Any'}, retu
          modifies=['self.assertion', 'self.came_from', 'self.name_id', 'self.not_on_or_after', 'self.session_not_on_or_after',
                    'assertion.subject.subject_confirmation'],
          clauses_from={'C02': ['C02-required-assertion-signature'], 'C01': ['C01-assertion-signature-verified'],
+                       'C20': ['C01-assertion-signature-verified'],
                        'C04': ['C04-conditions-window', 'C04-session-window'],
                        'C05': ['C05-audience', 'C05-confirmations', 'C05-solicited'],
                        'C17': ['C04-conditions-window', 'C05-audience', 'C05-confirmations']})
